@@ -19,6 +19,21 @@ type scenGen struct {
 	nextID uint32
 	prop   string
 	faults map[string]int64
+	common []Opts // option values used by several calls through one shared *ApplyOptions
+}
+
+func (sg *scenGen) genCommonOpts(permille int) {
+	if !sg.r.P(permille) {
+		return
+	}
+	for i, n := 0, 1+sg.r.Intn(2); i < n; i++ {
+		o := sg.opts()
+		if sg.r.P(500) {
+			// near the copy limit: accumulated sizes of different calls must not add up
+			o.Limit = int64(8 + sg.r.Intn(120))
+		}
+		sg.common = append(sg.common, o)
+	}
 }
 
 func (sg *scenGen) addBuf(b string) int {
@@ -181,6 +196,11 @@ func (sg *scenGen) genCall(slotsRead []int, slotWrite int, legacy bool) Call {
 		c.Slot = slotsRead[r.Intn(len(slotsRead))]
 		if c.Fn == FnApplyWithOptions || c.Fn == FnApplyIndentWithOptions {
 			c.Opts = sg.opts()
+			if len(sg.common) > 0 && r.P(600) {
+				// one of the scenario's common option values, passed as one shared object
+				c.Opts = sg.common[r.Intn(len(sg.common))]
+				c.ShareOpts = true
+			}
 		}
 		if c.Fn == FnApplyIndent || c.Fn == FnApplyIndentWithOptions {
 			c.Indent = indents[r.Intn(len(indents))]
@@ -228,6 +248,7 @@ func GenHist(seed uint64, prop, target string) (*Scenario, map[string]int64) {
 	}
 	sg.genCfg()
 	sg.genBufs(corrupt)
+	sg.genCommonOpts(350)
 	n := 2 + r.Intn(12)
 	if r.P(80) {
 		n = 15 + r.Intn(26)
@@ -287,6 +308,7 @@ func GenConc(seed uint64, prop, target string) (*Scenario, map[string]int64) {
 	sg.genCfg()
 	sg.sc.Cfg.Warm = r.Bool()
 	sg.genBufs(80)
+	sg.genCommonOpts(600)
 	var shared []int
 	for s := 0; s < nshared; s++ {
 		sg.nextID++
